@@ -16,6 +16,28 @@ claim('C14', 'model_checking', 'explicit-state BFS over operation histories of t
       'Trusted: go-datastore contract (single put and batch commit atomic+durable) as modelled by the KV double; small scope (heights<=3, depth<=5/6).',
       'DESIGN.md section 5 C14', 'bfs')
 
+claim('C01', 'model_checking', 'stateless exhaustive enumeration of sequencing/execution/restart answer sequences on the real production step, deviation-bounded',
+      'Every sequence of sequencing-layer answers (10-element menu: fresh/empty/absent/error/nil batch, timestamps +1s/0/-1s, repeated transactions), execution outcomes and clean restarts over 4-5 production steps within per-class deviation budgets, for initial heights 1 and 3, is run on the real Manager.publishBlock over the real store; after every step the whole committed chain is re-read from the store and checked (height +0/+1, hash link, time order, data commitment, batch mapping, app hash = reference root, proposer signature and address, stored signature, recorded state, broadcast = committed, execution inputs); 3 well-formed steps afterwards must add a block.',
+      'Trusted: executor/sequencer doubles (hash-chain root), datastore double; small scope (<=5 steps, <=3 deviations). Full-node acceptance of the produced chain is exercised in C02/C13 worlds.',
+      'DESIGN.md section 5 C01', 'explore')
+claim('C04', 'fault_enumeration', 'exhaustive crash-point enumeration over the real durable-write log (datastore double + os shim for cache files), nested crashes, reboot on the image',
+      'Every durable datastore write of a whole run (first start-up, 4-5 production steps over all empty/non-empty chain contents, recovery start-ups and the steps after them) is a crash point; all subsets of up to 2 (quick) / 3 (thorough) crash points are enumerated, the node is rebooted on the exact image, and after every step/reboot the chain, the recorded state, the pinned hashes of committed/published heights and liveness (3 well-formed steps add a block) are checked. Second part: every prefix of the REAL file-operation log of SaveCache (os shim) and torn writes, then start-up and production on that image.',
+      'Trusted: datastore atomicity contract; file operations are durable in program order (no fsync reordering model); doubles as C01.',
+      'DESIGN.md section 5 C04', 'explore')
+claim('C10', 'model_checking', 'explicit-state BFS over submit/next/reload/crash histories of the real single sequencer against a FIFO slice model',
+      'All operation histories to a fixpoint (depth 8 quick / 12 thorough) over {submit A/B/C(/D), identical resubmission, empty, foreign chain id, next, reload, crash before the k-th durable write of submit/next + reload} with queue sizes 2-3 (1-4) on the real single.Sequencer over the logging datastore; answers are compared with a slice model (order, exactly-once, durability, rejected-leaves-no-trace, bound). The concurrent-submitter part of the property is not yet covered.',
+      'Trusted: datastore double with sorted iteration like badger; sequential histories only (interleavings of concurrent submitters pending).',
+      'DESIGN.md section 5 C10', 'bfs')
+
+claim('C06', 'model_checking', 'stateless exhaustive enumeration of DA answers and crash points against the unmodified submission loops under virtual time (testing/synctest)',
+      'The real HeaderSubmissionLoop and DataSubmissionLoop run unmodified in a synctest bubble; every sequence of DA answers (8-element menu per Submit: accept, prefix, timed out, in mempool, too big, error, stored-but-ack-lost, cancelled) and crash points (before each Submit, before each durable write of the loops) within the deviation budgets, over all empty/non-empty chain contents, initial heights 1 and 3 and both loop start orders, with a block committed mid-way; oracles from the DA double ground truth: blobs decode to the committed items and verify, first acceptance in height order, one call in increasing order, no resubmission below the recorded watermark, watermarks monotone/sound/durable, completion once the DA accepts.',
+      'Trusted: synctest virtual time; DA/executor/sequencer doubles; loops started 1 ms apart so their timers never coincide (both orders explored); small scope (<=5 blocks, <=2-3 DA faults, <=1-2 crashes).',
+      'DESIGN.md section 5 C06', 'explore')
+claim('C08', 'model_checking', 'exhaustive enumeration of produce/DA-block/outage action sequences on the real production step and submission loops under virtual time',
+      'Every action sequence up to depth 6 (quick) / 8 (thorough) over {produce non-empty, produce empty, DA block with accepting DA, DA block of outage (<=3)} for limits 1-3 and initial heights 1 and 3; a declined production must coincide with at least `limit` committed blocks whose header or non-empty data the DA has not acknowledged (ground truth of the DA double), and after three accepting DA blocks production must resume.',
+      'Trusted: synctest virtual time; doubles; weakest reading of "genuinely waiting" (one count per block).',
+      'DESIGN.md section 5 C08', 'explore')
+
 NOT_YET = "check not built yet in this session (work in progress, see DESIGN.md section 10 for the order of work)"
 
 checks = []
